@@ -213,6 +213,29 @@ Definition slp_ok (o : @slp Z) : Prop := match o with Over o => (0 <= o)%Z | Ear
 Definition world_ok (w : @world Z) : Prop :=
   Forall step_ok (reads w) /\ Forall slp_ok (overs w).
 
+(* the tock in force in each run of a session: the one given at construction until one is assigned *)
+Fixpoint eff_tocks {T : Type} (tock : T) (runs : list (@run_in T)) : list T :=
+  match runs with
+  | [] => []
+  | r :: rest => let t := match i_tock r with Some x => x | None => tock end in t :: eff_tocks t rest
+  end.
+
+Definition run_ok (r : @run_in Z) : Prop := step_ok (i_pre r) /\ Forall step_ok (i_works r).
+
+(* the two halves of the property for one run *)
+Definition not_early_run (tock : Z) (o : @run_out Z) : Prop :=
+  (forall k c, nth_error (r_cycles o) k = Some c -> (r_mono o + Z.of_nat k * tock <= c_mono c)%Z) /\
+  (r_mono o + Z.of_nat (length (r_cycles o)) * tock <= r_end_mono o)%Z.
+Definition lossless_run (tock : Z) (o : @run_out Z) : Prop :=
+  forall k c, nth_error (r_cycles o) k = Some c ->
+    c_stop c = (r_now o + (Z.of_nat k + 1) * tock + shifts (c_log c))%Z.
+
+(* what can keep a wait from ending at once: a backward jump seen by a read, a sleep that returns early *)
+Definition bad_reads (rs : list (Z * Z)) : nat := length (filter (fun s => (0 <? snd s)%Z) rs).
+Definition bad_overs (os : list (@slp Z)) : nat :=
+  length (filter (fun o => match o with Early _ => true | Over _ => false end) os).
+Definition bad (w : @world Z) : nat := (bad_reads (reads w) + bad_overs (overs w))%nat.
+
 (* ---- correspondence (binary64) ---- *)
 Record fcyc := { f_now : float; f_mono : float; f_stop : float; f_sleeps : list float }.
 Record frun := { f_start : float; f_start_mono : float; f_cycles : list fcyc; f_end : float; f_end_mono : float }.
